@@ -79,6 +79,7 @@ Fixpoint sp_leaf (l : leaf) : vcall :=
   | LOpt true inner => sp_leaf inner
   | LOpt false _ => VNone
   | LWrap w inner => wrap_value w (sp_leaf inner)
+  | LFmt inner => format_value (sp_leaf inner)
   end.
 Fixpoint sp_group (l : leaf) : bytes :=
   match l with
@@ -102,6 +103,7 @@ Fixpoint leaf_units_ok (l : leaf) : bool :=
   | LVal u inner => leaf_units_ok inner && unit_compatible u (sp_leaf inner)
   | LOpt _ inner => leaf_units_ok inner
   | LWrap _ inner => leaf_units_ok inner
+  | LFmt inner => leaf_units_ok inner
   | _ => true
   end.
 
